@@ -90,7 +90,7 @@ func main() {
 		out.AfterFingerprints[i] = enc.Fingerprint(enc.Encode(sp))
 	}
 	// let library goroutines that are about to exit do so
-	for i := 0; i < 200 && runtime.NumGoroutine() > out.GoroutinesBefore; i++ {
+	for i := 0; i < 3000 && runtime.NumGoroutine() > out.GoroutinesBefore; i++ {
 		time.Sleep(time.Millisecond)
 	}
 	out.GoroutinesAfter = runtime.NumGoroutine()
